@@ -431,6 +431,7 @@ def r7(ctx):
 
 
 def multiline_rule(ctx, rid):
+    ctx.mark('multiline-field', rid)
     ctx.rule(rid, 'the parts of a quoted field that is wrapped over several lines are joined with the value separator whenever '
              'something was collected before the line break: in FileReader::splitFields the condition of that insertion tests the '
              'collected text for emptiness (position > 0 / != 0), not for a longer minimum - a first part of one character is '
@@ -494,6 +495,7 @@ def r9(ctx):
 
 
 def r10(ctx):
+    ctx.mark('parseint-prefix', 'C19.R10')
     ctx.rule('C19.R10', 'parseInt() reads a number from the front of a text and reports how much it consumed (the value list parser '
              'hands it the whole "key=name" token), so what follows the number must not matter: its search for a minus sign is '
              'bounded by the end pointer of strtoul (memchr(str, \'-\', strEnd - str)); an unbounded search rejects '
